@@ -82,8 +82,14 @@ def js_num(bits):
     return "(%s)" % s if s.startswith("-") else s
 
 
-def js_lit(t, tojson=None):
-    """JS source of the value; tojson: dict id(tree) -> method source"""
+def js_lit(t, tojson=None, names=None):
+    """JS source of the value; tojson: dict id(tree) -> method source; names: dict id(tree) -> variable holding that instance"""
+    if names and id(t) in names:
+        return names[id(t)]
+    return js_lit_node(t, tojson, names)
+
+
+def js_lit_node(t, tojson=None, names=None):
     k = t[0]
     if k == "N":
         return "null"
@@ -98,8 +104,8 @@ def js_lit(t, tojson=None):
     if k == "S":
         return js_str(t[1])
     if k == "A":
-        return "[" + ",".join(js_lit(e, tojson) for e in t[1]) + "]"
-    parts = ["%s:%s" % (js_str(key), js_lit(e, tojson)) for key, e in t[1]]
+        return "[" + ",".join(js_lit(e, tojson, names) for e in t[1]) + "]"
+    parts = ["%s:%s" % (js_str(key), js_lit(e, tojson, names)) for key, e in t[1]]
     if tojson and id(t) in tojson:
         parts.append("toJSON:" + tojson[id(t)][0])
     return "({" + ",".join(parts) + "})" if False else "{" + ",".join(parts) + "}"
@@ -285,8 +291,258 @@ def internalize(key, value, holder, reviver, log):
 
 # ---------------------------------------------------------------------------------------------
 
+# ---------------------------------------------------------------------------------------------
+# deepening round: the same instance reachable several times (through plain members, toJSON results, replacer results, under a
+# replacer array) -- sharing is unobservable, so the reference is the tree semantics above applied to a Python tree in which the shared
+# node is the same Python object; a genuine cycle must throw TypeError
+
+def graft(rng, t, shared, p):
+    """copy of t with some leaves / members replaced by one of the shared instances (the same Python object every time)"""
+    if t[0] == "A":
+        return ("A", [rng.choice(shared) if rng.random() < p else graft(rng, e, shared, p) for e in t[1]])
+    if t[0] == "O":
+        return ("O", [(k, rng.choice(shared) if rng.random() < p else graft(rng, e, shared, p)) for k, e in t[1]])
+    return t
+
+
+def make_dag_program(rng):
+    kind = rng.choice(["dag-plain", "dag-plain", "dag-replacer-array", "dag-replacer-array", "dag-replacer-fn", "dag-tojson", "dag-tojson", "dag-replacer-returns-shared", "dag-cycle"])
+    hs, ms, st = V.gen_space(rng)
+    if "nonws" in st or rng.random() < 0.5:
+        hs, ms, st = "-", "-", "space-none"
+    js_space = "undefined" if hs == "-" else (js_num(int(hs[1:], 16)) if hs[0] == "n" else js_str(V_unhx(hs[1:])))
+    nshared = rng.choice([1, 1, 2])
+    shared = []
+    for _ in range(nshared):
+        r = rng.random()
+        if r < 0.4:
+            shared.append(("O", []))
+        elif r < 0.55:
+            shared.append(("A", []))
+        else:
+            t = gen_ptree(rng, rng.choice([1, 2]), allow_undef=True)
+            while t[0] not in ("A", "O"):
+                t = gen_ptree(rng, rng.choice([1, 2]), allow_undef=True)
+            shared.append(t)
+    if kind == "dag-replacer-returns-shared":
+        shared[-1] = rng.choice([("O", []), ("O", []), ("A", [])])
+    if nshared == 2 and shared[0][0] == "O" and rng.random() < 0.5:     # an instance inside another one, and also outside
+        shared[0] = ("O", list(shared[0][1]) + [(u("in"), shared[1])])
+    names = {id(x): "s%d" % i for i, x in enumerate(shared)}
+    # definitions: later instances first (s0 may contain s1)
+    prelude = "".join("var s%d=%s;" % (i, js_lit_node(x, None, names)) for i, x in reversed(list(enumerate(shared))))
+    base = gen_ptree(rng, rng.choice([1, 2, 3]), allow_undef=True)
+    while base[0] not in ("A", "O") or not base[1]:
+        base = gen_ptree(rng, rng.choice([1, 2, 3]), allow_undef=True)
+    tree = graft(rng, base, shared, 0.35)
+    # make sure one instance occurs at least twice at the top
+    if tree[0] == "A":
+        tree = ("A", [shared[0]] + list(tree[1]) + [shared[0]])
+    else:
+        tree = ("O", [(u("p"), shared[0])] + [(k, e) for k, e in tree[1] if k not in (u("p"), u("q"))] + [(u("q"), shared[0])])
+    tojson, replacer, rsrc, plist = {}, None, "undefined", None
+    if kind == "dag-cycle":
+        tgt = shared[0]
+        if tgt[0] == "O":
+            cyc = "s0.cyc=%s;" % rng.choice(["s0", "[s0]", "{z:s0}"])
+        else:
+            cyc = "s0.push(%s);" % rng.choice(["s0", "[s0]", "{z:s0}"])
+        src = prelude + cyc + "String(JSON.stringify(%s,undefined,%s))" % (js_lit(tree, None, names), js_space)
+        return {"kind": kind, "source": src, "expect": ("error", "TypeError")}
+    if kind == "dag-replacer-array":
+        items = [rng.choice(SKEYS + ["p", "q", "in"]) for _ in range(rng.choice([0, 0, 1, 2, 4]))]
+        plist, parts = [], []
+        for it in items:
+            parts.append(js_str(u(it)))
+            if u(it) not in plist:
+                plist.append(u(it))
+        rsrc = "[" + ",".join(parts) + "]"
+    elif kind == "dag-replacer-fn":
+        rsrc, replacer = rng.choice(REPLACERS)
+    elif kind == "dag-replacer-returns-shared":
+        inst = shared[-1]       # made key-less above: a replacer that answers with a keyed instance for a key the instance has is a real cycle
+        rsrc = "function(k,v){return k==='x'||k==='1'?s%d:v}" % (len(shared) - 1)
+        replacer = (lambda k, v, h, inst=inst: inst if k in (u("x"), u("1")) else v)
+    elif kind == "dag-tojson":
+        objs = []
+        collect_objects_outside(tree, objs, names)      # an object inside the returned instance with this toJSON would be a real cycle
+        inst = shared[-1]
+        meth = ("function(k){return s%d}" % (len(shared) - 1), lambda k, o, inst=inst: inst)
+        for o in objs:
+            if o is not inst and id(o) not in names and rng.random() < 0.5 and not any(k == u("toJSON") for k, _ in o[1]):
+                tojson[id(o)] = meth if rng.random() < 0.7 else rng.choice(TOJSON)
+    wrapper = ("O", [(u(""), tree)])
+    res = serialize_prop(u(""), tree, wrapper, replacer, plist, tojson, None)
+    src = prelude + "String(JSON.stringify(%s,%s,%s))" % (js_lit(tree, tojson, names), rsrc, js_space)
+    if res == UNDEF:
+        return {"kind": kind, "source": src, "expect": ("literal", "undefined")}
+    return {"kind": kind, "source": src, "expect": ("text", ms, res)}
+
+
+# ---------------------------------------------------------------------------------------------
+# deepening round, parse side: revivers that make InternalizeJSONProperty visit a holder again -- the reviver plants one shared
+# instance under keys that are still to be visited (so the instance is walked once per holder and its numbers are revived each time),
+# deletes keys that are still to be visited, truncates the array being walked, or answers with the same instance for several keys.
+# Reference: a direct transcription of InternalizeJSONProperty over MUTABLE objects with identity.
+
+class MObj:
+    """mutable object / array with identity"""
+    def __init__(self, kind, items):
+        self.kind = kind                    # "O": list of [key units, value] in creation order; "A": list of values (UNDEF = hole)
+        self.items = items
+
+    def keys(self):
+        return [k for k, _ in own_order([(k, v) for k, v in self.items])] if self.kind == "O" else [u(str(i)) for i in range(len(self.items))]
+
+    def get(self, k):
+        if self.kind == "O":
+            for kk, v in self.items:
+                if kk == k:
+                    return v
+            return UNDEF
+        s = ustr(k)
+        if s == "length":
+            return num(len(self.items))
+        return self.items[int(s)] if s.isdigit() and int(s) < len(self.items) else UNDEF
+
+    def set(self, k, v):                    # CreateDataProperty
+        if self.kind == "O":
+            for it in self.items:
+                if it[0] == k:
+                    it[1] = v
+                    return
+            self.items.append([k, v])
+        else:
+            i = int(ustr(k))
+            while len(self.items) <= i:
+                self.items.append(UNDEF)
+            self.items[i] = v
+
+    def delete(self, k):
+        if self.kind == "O":
+            self.items = [it for it in self.items if it[0] != k]
+        else:
+            s = ustr(k)
+            if s.isdigit() and int(s) < len(self.items):
+                self.items[int(s)] = UNDEF      # a hole; length unchanged
+
+
+def to_mut(t):
+    if t[0] == "A":
+        return MObj("A", [to_mut(e) for e in t[1]])
+    if t[0] == "O":
+        return MObj("O", [[k, to_mut(e)] for k, e in own_order(t[1])])
+    return t
+
+
+def from_mut(v, depth=0):
+    """the (unfolded) tree of a mutable value, for printing"""
+    if depth > 60:
+        raise RecursionError
+    if isinstance(v, MObj):
+        if v.kind == "A":
+            return ("A", [from_mut(e, depth + 1) for e in v.items])
+        return ("O", [(k, from_mut(e, depth + 1)) for k, e in own_order([(k, e) for k, e in v.items])])
+    return v
+
+
+def internalize_m(holder, name, reviver, log):
+    val = holder.get(name)
+    if isinstance(val, MObj):
+        if val.kind == "A":
+            n = len(val.items)              # LengthOfArrayLike once, before the loop
+            keys = [u(str(i)) for i in range(n)]
+        else:
+            keys = val.keys()               # EnumerableOwnPropertyNames once, before the loop
+        for k in keys:
+            new = internalize_m(val, k, reviver, log)
+            if new == UNDEF:
+                val.delete(k)
+            else:
+                val.set(k, new)
+    if log is not None:
+        log.append(name)
+    return reviver(holder, name, val)
+
+
+def mk_mut_revivers(sh):
+    """(JS source using the global SH, python (holder, key, value) -> value)"""
+    def dbl(v):
+        return num(V.float_of(v[1]) * 2) if (not isinstance(v, MObj)) and is_num(v) else v
+
+    def plant(h, k, v):
+        if k == u("a") and isinstance(h, MObj) and h.kind == "O":
+            h.set(u("b"), sh)
+        return dbl(v)
+
+    def plant0(h, k, v):
+        if k == u("0") and isinstance(h, MObj) and h.kind == "A":
+            h.set(u("1"), sh)
+        return dbl(v)
+
+    def delb(h, k, v):
+        if k == u("a") and isinstance(h, MObj) and h.kind == "O":
+            h.delete(u("b"))
+        return dbl(v)
+
+    def trunc(h, k, v):
+        if k == u("0") and isinstance(h, MObj) and h.kind == "A":
+            del h.items[1:]
+        return v
+
+    def same(h, k, v):
+        return sh if isinstance(v, MObj) and v.kind == "A" else v
+
+    def sameobj(h, k, v):
+        return sh if isinstance(v, MObj) and v.kind == "O" and k != u("") else v
+
+    return [
+        ("function(k,v){if(k==='a'&&!Array.isArray(this))this.b=SH;return typeof v==='number'?v*2:v}", plant),
+        ("function(k,v){if(k==='0'&&Array.isArray(this))this[1]=SH;return typeof v==='number'?v*2:v}", plant0),
+        ("function(k,v){if(k==='a'&&!Array.isArray(this))delete this.b;return typeof v==='number'?v*2:v}", delb),
+        ("function(k,v){if(k==='0'&&Array.isArray(this))this.length=1;return v}", trunc),
+        ("function(k,v){return Array.isArray(v)?SH:v}", same),
+        ("function(k,v){return (v&&typeof v==='object'&&!Array.isArray(v)&&k!=='')?SH:v}", sameobj),
+    ]
+
+
+def make_mut_reviver_program(rng):
+    kind = "reviver-shared"
+    sh_tree = rng.choice([("O", []), ("A", []), ("O", [(u("z"), ("A", [num(1), num(2)]))]), ("A", [num(3), ("O", [(u("n"), num(4))])]),
+                          ("O", [(u("a"), num(1)), (u("b"), num(5))])])
+    sh = to_mut(sh_tree)
+    # texts with the keys the revivers look at
+    def t(depth):
+        if depth <= 0 or rng.random() < 0.3:
+            return rng.choice([num(1), num(7), ("S", u("s")), ("N",), ("T",), ("A", []), ("O", [])])
+        if rng.random() < 0.5:
+            return ("A", [t(depth - 1) for _ in range(rng.choice([1, 2, 3]))])
+        ks = rng.sample(["a", "b", "c", "x", "0", "1"], rng.choice([1, 2, 3, 4]))
+        if rng.random() < 0.6 and "a" not in ks:
+            ks.insert(rng.randrange(len(ks) + 1), "a")
+        return ("O", [(u(k), t(depth - 1)) for k in ks])
+    tree = t(rng.choice([1, 2, 3]))
+    text = json_text(tree)
+    revs = mk_mut_revivers(sh)
+    rsrc, reviver = rng.choice(revs)
+    root = MObj("O", [[u(""), to_mut(tree)]])
+    try:
+        res = internalize_m(root, u(""), reviver, None)
+        out = ("A", [from_mut(res), from_mut(sh)])
+    except RecursionError:
+        return make_mut_reviver_program(rng)      # the planted instance ended up inside itself: not this family's business
+    src = "var SH=%s;String(JSON.stringify([JSON.parse(%s,%s),SH]))" % (js_lit(sh_tree), js_str(u(text)), rsrc)
+    res2 = serialize_prop(u(""), out, ("O", [(u(""), out)]), None, None, {}, None)
+    return {"kind": kind, "source": src, "expect": ("text", "-", res2)}
+
+
 def make_program(rng):
-    """returns dict(source, kind, expect = ('text', mspace, tree) | ('literal', string))"""
+    """returns dict(source, kind, expect = ('text', mspace, tree) | ('literal', string) | ('error', class))"""
+    r = rng.random()
+    if r < 0.3:
+        return make_dag_program(rng)
+    if r < 0.42:
+        return make_mut_reviver_program(rng)
     kind = rng.choice(["replacer-fn", "replacer-fn", "replacer-array", "tojson", "replacer-log", "reviver", "reviver", "reviver-log", "tojson+replacer"])
     hs, ms, st = V.gen_space(rng)
     if "nonws" in st or rng.random() < 0.5:
@@ -372,6 +628,18 @@ def collect_objects(t, acc):
             collect_objects(e, acc)
 
 
+def collect_objects_outside(t, acc, names):
+    if id(t) in names:
+        return
+    if t[0] == "O":
+        acc.append(t)
+        for _, e in t[1]:
+            collect_objects_outside(e, acc, names)
+    elif t[0] == "A":
+        for e in t[1]:
+            collect_objects_outside(e, acc, names)
+
+
 def esc_src(s):
     out = []
     for ch in s:
@@ -400,6 +668,8 @@ def run_programs(run, tools, n, dist, stats, node_eval):
     for p in progs:
         if p["expect"][0] == "literal":
             p["expected"] = "ok U" + hx(u(p["expect"][1]))
+        elif p["expect"][0] == "error":
+            p["expected"] = "err " + p["expect"][1]
     io = tools.impl(["js " + esc_src(p["source"]) for p in progs])
     bad = []
     for p, i in zip(progs, io):
